@@ -148,6 +148,7 @@ type exRec struct {
 	downID            string
 	extraAfterHijack  int
 	closedAfterHijack bool
+	ctxAfterEnd       bool // context still retrievable when a later request of the connection was handled
 	stalled           bool // the response body neither completed nor hit EOF: the read timed out
 }
 
@@ -215,6 +216,14 @@ func (w *world) reqmod() martian.RequestModifier {
 		}
 		r.https = req.URL.Scheme == "https"
 		r.tlsAttached = req.TLS != nil
+		// exchanges that have ended on this connection must no longer have a retrievable context,
+		// even while the connection lives on (a MITM CONNECT has not ended while its tunnel is served)
+		for oid, o := range w.recs {
+			oit := w.items[oid]
+			if oid != id && o.retained != nil && o.resmod > 0 && oit != nil && oit.kind != "cmitm" && martian.NewContext(o.retained) != nil {
+				o.ctxAfterEnd = true
+			}
+		}
 		w.mu.Unlock()
 		if it == nil {
 			return nil
@@ -1062,6 +1071,9 @@ func (e *Ex) report(open bool, left int, probeID string) core.Result {
 			sess = r.sess
 		} else if r.sess != sess {
 			failf("c02:session-not-shared", "exchange %d has session %s, the connection started with %s", idx, r.sess, sess)
+		}
+		if r.ctxAfterEnd {
+			failf("c02:context-retrievable-after-exchange", "exchange %d: its context was still retrievable while a later request of the same connection was being handled", idx)
 		}
 		if r.retained != nil && martian.NewContext(r.retained) != nil {
 			failf("c02:context-leak", "exchange %d: context still retrievable after the exchange ended", idx)
